@@ -1066,7 +1066,8 @@ func (ctx *RenderContext) EvaluateExpression(node Node) (interface{}, error) {
 			return 0, nil
 		case "-":
 			if num, ok := ctx.toNumber(operand); ok {
-				return -num, nil
+				// 0 - num (rather than -num) so that negating zero gives 0, not -0
+				return 0 - num, nil
 			}
 			return 0, nil
 		default:
@@ -1430,7 +1431,8 @@ func (ctx *RenderContext) evaluateBinaryOp(operator string, left, right interfac
 	case "*":
 		if lNum, lok := ctx.toNumber(left); lok {
 			if rNum, rok := ctx.toNumber(right); rok {
-				return lNum * rNum, nil
+				// + 0 turns a negative zero (0 * -3) into 0
+				return lNum*rNum + 0, nil
 			}
 		}
 
@@ -1440,7 +1442,7 @@ func (ctx *RenderContext) evaluateBinaryOp(operator string, left, right interfac
 				if rNum == 0 {
 					return nil, errors.New("division by zero")
 				}
-				return lNum / rNum, nil
+				return lNum/rNum + 0, nil
 			}
 		}
 
@@ -1451,7 +1453,7 @@ func (ctx *RenderContext) evaluateBinaryOp(operator string, left, right interfac
 				if rNum == 0 {
 					return nil, errors.New("modulo by zero")
 				}
-				return math.Mod(lNum, rNum), nil
+				return math.Mod(lNum, rNum) + 0, nil
 			}
 		}
 
